@@ -223,7 +223,40 @@ class Alloc:
         self.m = m
         self.tr = Tr(Fn('Quantity', 'allocate', [], 'qty', 'allocate_impl'))
 
+    LOCALS = ['n_portions', 'total', 'fractions', 'portions', 'remainder', 'rem_amount',
+              'quantum', 'errors']
+
+    def canonical_locals(self):
+        """rename the method's local variables, in the order of their first assignment, to the
+        names the skeleton is written with (a renamed local is a harmless rewrite); loop,
+        comprehension and lambda variables are handled generically and left alone"""
+        order = []
+
+        def targets(stmts):
+            for s in stmts:
+                if isinstance(s, (ast.Assign, ast.AnnAssign, ast.AugAssign)):
+                    for t in (s.targets if isinstance(s, ast.Assign) else [s.target]):
+                        if isinstance(t, ast.Name) and t.id not in order:
+                            order.append(t.id)
+                for f in ('body', 'orelse', 'handlers', 'finalbody'):
+                    sub = getattr(s, f, None)
+                    if isinstance(sub, list) and not isinstance(s, (ast.Lambda,)):
+                        targets([x for x in sub if isinstance(x, ast.stmt)]
+                                + [y for x in sub if isinstance(x, ast.ExceptHandler) for y in x.body])
+        targets(self.m.body)
+        if len(order) != len(self.LOCALS) or order == self.LOCALS:
+            return
+        params = {a.arg for a in self.m.args.args}
+        if set(order) & params or (set(self.LOCALS) - set(order)) & \
+                {n.id for n in ast.walk(self.m) if isinstance(n, ast.Name)}:
+            return              # a clash: leave the text as it is (the strict check decides)
+        ren = dict(zip(order, self.LOCALS))
+        for n in ast.walk(self.m):
+            if isinstance(n, ast.Name) and n.id in ren:
+                n.id = ren[n.id]
+
     def generate(self):
+        self.canonical_locals()
         m = self.m
         names = [a.arg for a in m.args.args]
         if names != ['self', 'ratios', 'disperse_rounding_error'] or m.args.vararg or m.args.kwarg \
